@@ -427,7 +427,14 @@ let () =
     let until = getz kv "until" 0 in
     let until = if until = Z0 then now else until in
     let q = view_query file (getz kv "archive" (-1)) (getz kv "from" 0) until now in
-    obs "cliquerycap path=/view q=%s" (if q = [] then "-" else Ops_text.hex_of_str q))
+    (* compared by meaning: the parameters the handler will read, decoded and sorted by name *)
+    let hexs l = if l = [] then "-" else Ops_text.hex_of_str l in
+    let canon = match parse_query q with
+      | None -> "unparsable:" ^ hexs q
+      | Some form ->
+        let sorted = List.stable_sort (fun (k1, _) (k2, _) -> compare (string_of_codes k1) (string_of_codes k2)) form in
+        String.concat "&" (List.map (fun (k, v) -> hexs k ^ "=" ^ hexs v) sorted) in
+    obs "cliquerycap path=/view q=%s" canon)
 ;;
 let () =
   let unhexs h = if h = "-" then [] else Ops_text.str_of_hex h in
